@@ -334,6 +334,18 @@ impl Scenario for C11Threads {
                 }
             }
         }
+        // one run in fifty: two hand-written modules with permitted alphabets on the multi-octet
+        // string types — BMPString inside the basic plane, UniversalString beyond it (for which the
+        // unchanged compiler prints its whole character table into a warning: 900 KB, the reason
+        // why the generator keeps its alphabets inside the plane and these two are rare)
+        if !self.xmod && !self.fine && !self.fmt && idx % 50 == 7 {
+            for f in ["bmp-alphabet.asn", "universal-alphabet.asn"] {
+                let p = format!("{}/dsim/samples/c11/{f}", env.verif);
+                if std::path::Path::new(&p).exists() {
+                    inputs.push(Input::Corpus(p));
+                }
+            }
+        }
         let n_gen = if use_corpus { w.below(2) } else { 1 + w.below(2) };
         for _ in 0..n_gen {
             let mut cfg = GenCfg::default_cfg();
@@ -638,6 +650,9 @@ impl Scenario for C11Threads {
                             let path = format!("{dir}/s{i}.asn");
                             if p.shared_dir {
             out.count("probe.two_threads_deliver_into_one_directory", 1);
+        }
+        if p.inputs.iter().any(|i| matches!(i, Input::Corpus(f) if f.contains("/samples/c11/"))) {
+            out.count("probe.hand_written_wide_alphabet_modules_among_the_inputs", 1);
         }
         if p.reuse_paths {
                                 late_writes.push((path.clone(), txt.clone()));
